@@ -48,9 +48,16 @@ for _i, _p in enumerate(_PATS):
         OBLIGATIONS.append(Obl(name=f"{_fn}_pat{_i}", module="h_markup", func=_fn, shadow=True, timeout=_secs * 5, env={"VERIF_PAT": str(_i)}, extra={"pat": _i},
                                replay="r_h_markup:" + _rep, weight=_secs, tier="quick" if _i in (1, 2) else "thorough",
                                bounds=f"pattern {_p!r}; t0, t2 of <= 2 and t1 of <= 1 characters over {{a, b}}", encodes=_AENC, stubs=_ASTUB))
+for _i, _p in enumerate(_PATS):
+    for _pos in (-1, 1, 2):
+        OBLIGATIONS.append(Obl(name=f"bookmark_regex_pat{_i}_pos{_pos}", module="h_markup", func="bookmark_regex_pos", shadow=True, timeout=800,
+                               env={"VERIF_PAT": str(_i), "VERIF_POS": str(_pos)}, extra={"pat": _i, "pos": _pos}, replay="r_h_markup:bookmark_regex_pos", weight=140,
+                               tier="quick" if (_i, _pos) in ((0, -1), (2, 1)) else "thorough",
+                               bounds=f"pattern {_p!r}, position={_pos} (which match, counted over the text runs; -1 = last); t0, t2 of <= 2 and t1 of <= 1 characters over {{a, b}}",
+                               encodes=_AENC + ["src/odfdo/element.py:Element._search_negative_position"], stubs=_ASTUB))
 OBLIGATIONS += [
     Obl(name="strip_spans", module="h_markup", func="strip_spans", shadow=True, timeout=300, replay="r_h_markup:strip_spans", weight=40,
         bounds="t0, t1, t2 of <= 2 characters over {a, b}; remove_spans and remove_links", encodes=_AENC, stubs=_ASTUB),
     Obl(name="delete_keep_tail", module="h_markup", func="delete_keep_tail", shadow=True, timeout=200, replay="r_h_markup:delete_keep_tail", weight=20,
-        bounds="t0, t1, t2 of <= 2 characters over {a, b}; inner/outer element, keep_tail flag symbolic", encodes=_AENC, stubs=_ASTUB),
+        bounds="t0, t1 and the tail of the deleted element of <= 2 characters over {a, space} (raw runs of spaces as read from a file); inner/outer element, keep_tail flag symbolic", encodes=_AENC, stubs=_ASTUB),
 ]
